@@ -444,7 +444,14 @@ func (r *Runner) assignVal(name string, prev expand.Variable, as *syntax.Assign,
 	if valType == "-A" {
 		amap := make(map[string]string, len(elems))
 		for _, elem := range elems {
-			k := r.literal(elem.Index.(*syntax.Word))
+			index, ok := elem.Index.(*syntax.Word)
+			if !ok {
+				// No subscript, as in m=([a]=b c), or an arithmetic expression.
+				r.errf("%s: %s: must use subscript when assigning associative array\n", name, r.literal(elem.Value))
+				r.exit.code = 1
+				continue
+			}
+			k := r.literal(index)
 			amap[k] = r.literal(elem.Value)
 		}
 		if !as.Append {
